@@ -419,9 +419,35 @@ cfgLoop:
 	return cfg, nil
 }
 
+// maxTimeS bounds all times given in seconds, so that their products with 1000 and with
+// a media timescale stay inside the int range.
+const maxTimeS = 1 << 36
+
+func timeSOutOfRange(t float64) bool {
+	return math.IsNaN(t) || t < -maxTimeS || t > maxTimeS
+}
+
 func verifyAndFillConfig(cfg *ResponseConfig, nowMS int) error {
-	if nowMS < 0 {
-		return fmt.Errorf("nowMS must be >= 0")
+	if nowMS < 0 || nowMS > maxTimeS*1000 {
+		return fmt.Errorf("nowMS must be >= 0 and <= %d", maxTimeS*1000)
+	}
+	if timeSOutOfRange(float64(cfg.StartTimeS)) {
+		return fmt.Errorf("start time %ds is out of range", cfg.StartTimeS)
+	}
+	if cfg.StopTimeS != nil && timeSOutOfRange(float64(*cfg.StopTimeS)) {
+		return fmt.Errorf("stop time %ds is out of range", *cfg.StopTimeS)
+	}
+	if cfg.TimeOffsetS != nil && timeSOutOfRange(*cfg.TimeOffsetS) {
+		return fmt.Errorf("timeoffset %fs is out of range", *cfg.TimeOffsetS)
+	}
+	if ato := cfg.AvailabilityTimeOffsetS; !math.IsInf(ato, +1) && (timeSOutOfRange(ato) || ato < 0) {
+		return fmt.Errorf("availabilityTimeOffset %fs must be >= 0 or inf", ato)
+	}
+	if cfg.ChunkDurS != nil && timeSOutOfRange(*cfg.ChunkDurS) {
+		return fmt.Errorf("chunkdur %fs is out of range", *cfg.ChunkDurS)
+	}
+	if cfg.TimeSubsDurMS <= 0 {
+		return fmt.Errorf("timesubsdur must be > 0")
 	}
 	if cfg.SegTimelineNrFlag && cfg.SegTimelineFlag {
 		return fmt.Errorf("SegmentTimelineTime and SegmentTimelineNr cannot be used at same time")
